@@ -108,7 +108,8 @@ def run_ehep(ctx, p):
 
 # ---- Mader -----------------------------------------------------------------------------------------------------------
 def gen_mader(rng, i, tier):
-    return dict(kw=C.gen_mader(rng, None), t=logu(rng, 1e-6, 1e-5), n=int(choice(rng, [50, 200, 1000])), ratio=logu(rng, 0.1, 10))
+    kw = C.gen_mader(rng, None)
+    return dict(kw=kw, t=logu(rng, 1e-6, 1e-5) * (1.0 if kw["d_cj"] > 100.0 else 1e6), n=int(choice(rng, [50, 200, 1000])), ratio=logu(rng, 0.1, 10))
 
 
 def run_mader(ctx, p):
